@@ -85,7 +85,7 @@ def run(ctx):
             info[cid] = (name, expected_code(m['assort'], len(b['starts']), len(b['ends']), len(b['weights']), len(b['aff']), b['ur'], b['uc'], N,
                                              b['r'], b['maxit'], b['nconv']), u0, v0, lab0, b['aff'], m)
             cid += 1
-    res = ctx.component('K-VALID', cases)
+    res = ctx.component('K-VALID', cases, keys={'status'})
     n_eval = 0
     keys = set()
     codes = {}
